@@ -20,7 +20,9 @@ Zero16 == <<0, 0, 0, 0, 0, 0, 0, 0, 0, 0, 0, 0, 0, 0, 0, 0>>
 \* exponent 0 is outside the documented use (a private class; split/combine raise to the power k >= 1 only): left open
 PowZeroOpen(e) == e.op = "pow" /\ e.e = 0
 ElemVerdict(e) ==
-   IF ~(IsB16(e.a) /\ IsB16(e.b) /\ IsB16(e.c) /\ IsB16(e.r) /\ IsB16(e.r2)) THEN "harness: malformed element record"
+   IF ~(IsB16(e.a) /\ IsB16(e.b) /\ IsB16(e.c)) THEN "harness: malformed element record"
+   \* the operands are elements; a result that does not encode to 16 bytes is not an element of GF(2^128) (e.g. a product left unreduced)
+   ELSE IF ~(IsB16(e.r) /\ IsB16(e.r2)) THEN "result is not an element of the field (it does not encode to 16 bytes)"
    ELSE IF PowZeroOpen(e) THEN "ok"
    ELSE IF e.op = "inv" /\ e.a = Zero16 THEN (IF e.exc = "ValueError" THEN "ok" ELSE "inverse of zero not refused with ValueError")
    ELSE IF e.op = "mulinv" /\ e.a = Zero16 THEN (IF e.exc = "ValueError" THEN "ok" ELSE "inverse of zero not refused with ValueError")
